@@ -434,6 +434,13 @@ func (g *genState) pickTags() []string {
 	if len(g.tags) == 0 || !g.r.Chance(1, 3) {
 		return nil
 	}
+	if len(g.tags) >= 4 && g.r.Chance(1, 2) { // many tags on one interaction
+		var out []string
+		for _, i := range g.r.Perm(len(g.tags)) {
+			out = append(out, g.tags[i].Name)
+		}
+		return out
+	}
 	k := g.r.Range(1, 2)
 	var out []string
 	for i := 0; i < k; i++ {
@@ -670,6 +677,9 @@ func Generate(r *xrand.Rand, opt Options) *Model {
 		blocks = append(blocks, t)
 	}
 	ng := r.Intn(3)
+	if r.Chance(1, 6) {
+		ng = r.Range(4, 5)
+	}
 	for i := 0; i < ng; i++ {
 		tg := &Block{Kind: "tag", Name: fmt.Sprintf("@G%d", g.id()), Annotation: g.annotation()}
 		if r.Chance(1, 3) {
@@ -685,6 +695,19 @@ func Generate(r *xrand.Rand, opt Options) *Model {
 			p := g.newPath()
 			g.paths[p] = true
 			b := &Block{Kind: "url", Path: p, Tags: g.pickTags()}
+			if r.Chance(1, 8) && strings.Contains(p, "{") {
+				// a URL block without methods of its own: it only says what the path parameters are, for methods that are
+				// written on their own with longer paths
+				if b.PathDecl = g.pathDecl(p); b.PathDecl != nil {
+					blocks = append(blocks, b)
+					p2 := p + "/" + g.word()
+					v := verbs[r.Intn(5)]
+					g.inter[v+" "+p2] = true
+					g.paths[p2] = true
+					blocks = append(blocks, &Block{Kind: "method", Method: g.method(v, p2, true)})
+					continue
+				}
+			}
 			if r.Chance(1, 3) {
 				b.PathDecl = g.pathDecl(p)
 			}
